@@ -95,7 +95,10 @@ def decode_message(message, encoding=ENCODING):
     frame, cs = frame_cs[:-2], frame_cs[-2:]
     # validate the checksum
     ccs = make_checksum(frame)
-    assert cs.upper() == ccs, "Checksum wrong: expected %r, got %r" % (cs, ccs)
+    # NOTE: no `assert` statement: it is stripped when Python runs with -O
+    if cs.upper() != ccs:
+        raise AssertionError(
+            "Checksum wrong: expected %r, got %r" % (cs, ccs))
     seq, records = decode_frame(frame, encoding)
     return seq, records, cs.decode()
 
